@@ -1,6 +1,6 @@
 (* C07 — receive buffering is bounded by the configured limit (separator-framed readers, copying path fully;
    buffer-filling path: the allocation is the bound by construction, acceptance proved in the safe band). *)
-From Coq Require Import List Arith ZArith NArith Lia.
+From Coq Require Import List Arith ZArith NArith Lia ZifyBool ZifyN ZifyNat.
 From EN Require Gen.ParamsC07.
 From EN Require Import Lib.Bytes Frame.Framer Frame.ReadUntil Frame.BufReadUntil Frame.JsonRaw Frame.Generic
   Stream.Consumer Stream.SpecDecode Proofs.ReadUntil_proofs Proofs.C07_proofs Proofs.C06_progress Proofs.C07_extra.
@@ -197,7 +197,8 @@ Proof.
   intros P sep limit size hint ke dec.
   unfold Gen.ParamsC07.autosep_alloc, Gen.ParamsC07.line_alloc, Gen.ParamsC07.fixed_alloc,
          Gen.ParamsC07.filebased_alloc, Gen.ParamsC07.compressor_alloc, fb_alloc, cz_alloc.
-  cbn [balloc bru_framer bfx_framer]. repeat split; lia.
+  cbn [balloc bru_framer bfx_framer].
+  repeat split; repeat match goal with |- context [if ?c then _ else _] => destruct c eqn:? end; lia.
 Qed.
 Print Assumptions receive_buffer_sizes_match_source.
 
